@@ -80,24 +80,47 @@ class _OsProxy:
         return getattr(self._real, n)
 
 
+def _patched_environ(cfg, mapping):
+    """Make jaxtyping._config see `mapping` as the process environment, however it got hold of
+    it (`import os` -> os.environ, or `from os import environ`).  Returns an undo function."""
+    import os
+    saved = {}
+    for k, v in list(vars(cfg).items()):
+        if v is os:
+            saved[k] = v
+            setattr(cfg, k, _OsProxy(os, mapping))
+        elif v is os.environ:
+            saved[k] = v
+            setattr(cfg, k, mapping)
+
+    def undo():
+        for k, v in saved.items():
+            setattr(cfg, k, v)
+    return undo, bool(saved)
+
+
 def observe_value(route, value):
-    import jaxtyping._config as cfg
+    import sys
+    import jaxtyping as jt
+    cfg = sys.modules[type(jt.config).__module__]
+    Config = type(jt.config)
     try:
         if route == "update":
-            c = cfg._JaxtypingConfig()
+            c = Config()
             c.update("jaxtyping_disable", value)
             r = c.jaxtyping_disable
         elif route == "update-stack":
-            c = cfg._JaxtypingConfig()
+            c = Config()
             c.update("JAXTYPING_REMOVE_TYPECHECKER_STACK", value)
             r = c.jaxtyping_remove_typechecker_stack
         else:
-            real_os = cfg.os
-            cfg.os = _OsProxy(real_os, {"JAXTYPING_DISABLE": value})
+            undo, ok = _patched_environ(cfg, {"JAXTYPING_DISABLE": value})
+            if not ok:
+                raise core.Unsupported("cannot intercept the environment lookup of the config module")
             try:
-                r = cfg._JaxtypingConfig().jaxtyping_disable
+                r = Config().jaxtyping_disable
             finally:
-                cfg.os = real_os
+                undo()
         if r is True:
             return "True"
         if r is False:
